@@ -81,6 +81,23 @@ CATALOGUE = [
     ('C11', 'abort-match-id-only', 'bacpypes/appservice.py',
      "            if apdu.apduSrv:\n                for tr in self.clientTransactions:\n                    if (apdu.apduInvokeID == tr.invokeID) and (apdu.pduSource == tr.pdu_address):\n                        break\n                else:\n                    return\n\n                # send the packet on to the transaction\n                tr.confirmation(apdu)\n            else:\n                for tr in self.serverTransactions:\n                    if (apdu.apduInvokeID == tr.invokeID) and (apdu.pduSource == tr.pdu_address):\n                        break\n                else:\n                    return\n\n                # send the packet on to the transaction\n                tr.indication(apdu)\n\n        elif isinstance(apdu, SegmentAckPDU):",
      "            if apdu.apduSrv:\n                for tr in self.clientTransactions:\n                    if (apdu.apduInvokeID == tr.invokeID):\n                        break\n                else:\n                    return\n\n                # send the packet on to the transaction\n                tr.confirmation(apdu)\n            else:\n                for tr in self.serverTransactions:\n                    if (apdu.apduInvokeID == tr.invokeID):\n                        break\n                else:\n                    return\n\n                # send the packet on to the transaction\n                tr.indication(apdu)\n\n        elif isinstance(apdu, SegmentAckPDU):"),
+    # ---- C06
+    ('C06', 'global-broadcast-back-to-arrival-port', 'bacpypes/netservice.py',
+     "            for xadapter in self.adapters.values():\n                if (xadapter is not adapter):\n                    xadapter.process_npdu(_deepcopy(newpdu))\n            return",
+     "            for xadapter in self.adapters.values():\n                xadapter.process_npdu(_deepcopy(newpdu))\n            return"),
+    ('C06', 'no-hop-decrement', 'bacpypes/netservice.py', "        newpdu.npduHopCount -= 1\n", "        newpdu.npduHopCount -= 0\n"),
+    ('C06', 'hop-zero-still-forwarded', 'bacpypes/netservice.py', "        if (npdu.npduHopCount == 0):\n", "        if (npdu.npduHopCount < 0):\n"),
+    ('C06', 'sadr-from-wrong-network', 'bacpypes/netservice.py', "            newpdu.npduSADR = RemoteStation( adapter.adapterNet, npdu.pduSource.addrAddr )",
+     "            newpdu.npduSADR = RemoteStation( self.local_adapter.adapterNet, npdu.pduSource.addrAddr )"),
+    ('C06', 'pending-resent-twice', 'bacpypes/netservice.py', "                    # send the packet downstream\n                    adapter.process_npdu(pending_npdu)\n",
+     "                    # send the packet downstream\n                    adapter.process_npdu(pending_npdu)\n                    adapter.process_npdu(_deepcopy(pending_npdu))\n"),
+    ('C06', 'pending-not-deleted', 'bacpypes/netservice.py', "                # delete the references\n                del sap.pending_nets[dnet]\n", "                # delete the references\n"),
+    ('C06', 'remote-broadcast-local-test-wrong-adapter', 'bacpypes/netservice.py',
+     "            processLocally = (npdu.npduDADR.addrNet == self.local_adapter.adapterNet)\n            forwardMessage = True",
+     "            processLocally = (npdu.npduDADR.addrNet != adapter.adapterNet)\n            forwardMessage = True"),
+    ('C06', 'unicast-also-processed-by-neighbours', 'bacpypes/netservice.py',
+     "            processLocally = (npdu.npduDADR.addrNet == self.local_adapter.adapterNet) \\\n                and (npdu.npduDADR.addrAddr == self.local_adapter.adapterAddr.addrAddr)",
+     "            processLocally = (npdu.npduDADR.addrNet == self.local_adapter.adapterNet)"),
     # ---- C12
     ('C12', 'window-max-instead-of-min', 'bacpypes/appservice.py', "        self.actualWindowSize = min(apdu.apduWin, self.ssmSAP.proposedWindowSize)\n        if _debug: ServerSSM._debug(",
      "        self.actualWindowSize = max(apdu.apduWin, self.ssmSAP.proposedWindowSize)\n        if _debug: ServerSSM._debug("),
